@@ -32,14 +32,14 @@ def history_shards(tier, fn, all_scheds=False):
         if tier == "quick" and k == 2:
             seqs = QUICK_PAIRS
         if k == 3:
-            seqs = [a + b for a in QUICK_PAIRS for b in "ozaA"]
+            seqs = [a + b for a in QUICK_PAIRS[:8] for b in "oz"] + ["rza", "mza", "Aoz", "NAo"]
         full = (1 << (k + 1)) - 1
         if all_scheds:
             scheds = list(range(1, 1 << k))          # C12: every placement of lookups between the steps (none = the reference run)
             if tier == "quick" and k == 2:
                 scheds = [1, 2, 3]
             if k == 3:
-                scheds = [1, 2, 4, 5, 7]
+                scheds = [1, 3, 5]
         else:
             scheds = [0, full] + ([1] if k >= 2 else [])      # 1 = a lookup before the first edit only: later edits accumulate
         for ops in seqs:
